@@ -70,9 +70,44 @@ def new_writer(pool=None):
     return buf, W._ctor(buf, pool)
 
 
-def new_reader(data: bytes, pool=None):
+class ChunkedStream(io.RawIOBase):
+    """a raw stream that hands out at most `chunk` bytes per read() - like a pipe, a socket or an unbuffered file.
+    The reader has to loop over short reads; io.BytesIO never produces one."""
+
+    def __init__(self, data: bytes, chunk: int):
+        super().__init__()
+        self._d, self._p, self._k = data, 0, chunk
+
+    def readable(self):
+        return True
+
+    def read(self, size=-1):
+        if size is None or size < 0:
+            size = len(self._d) - self._p
+        n = min(size, self._k, len(self._d) - self._p)
+        out = self._d[self._p:self._p + n]
+        self._p += n
+        return out
+
+    def readinto(self, b):
+        out = self.read(len(b))
+        b[:len(out)] = out
+        return len(out)
+
+    def tell(self):
+        return self._p
+
+
+STREAM_KINDS = {}
+
+
+def new_reader(data: bytes, pool=None, plain=False):
+    """reader over the bytes; the stream kind (BytesIO, or short reads of at most 1 / 3 / 16 bytes) is a deterministic
+    function of the bytes, so every decoding suite also exercises the reader's short-read loops"""
     R, _ = _io()
-    st = io.BytesIO(data)
+    k = 0 if plain else (len(data) * 31 + sum(data[:8])) % 4
+    st = io.BytesIO(data) if k == 0 else ChunkedStream(data, (1, 3, 16)[k - 1])
+    STREAM_KINDS[k] = STREAM_KINDS.get(k, 0) + 1
     return st, R._ctor(st, pool)
 
 
@@ -923,7 +958,7 @@ def zone_fields(data):
 
 
 def decode_pool(pool_payload: bytes):
-    st, r = new_reader(pool_payload, None)
+    st, r = new_reader(pool_payload, None, plain=True)   # harness plumbing (the pool is needed to run anything at all)
     n = r.read_count()
     return tuple(r.read_string() for _ in range(n))
 
